@@ -28,7 +28,8 @@ def sh(cmd, cwd=None, env=None, timeout=1800):
 
 
 def run_suite(wt: Path):
-    env = dict(os.environ, PYTHONPATH=str(wt / "src"))
+    td = tempfile.mkdtemp(prefix="confirm-tmp-")
+    env = dict(os.environ, PYTHONPATH=str(wt / "src"), TMPDIR=td)
     xml = wt / "junit.xml"
     sh(f"/venv/bin/python -m pytest -q -p no:cacheprovider --timeout=900 --continue-on-collection-errors --junitxml={xml}", cwd=wt, env=env)
     passed = set()
@@ -36,6 +37,7 @@ def run_suite(wt: Path):
         if not any(c.tag in ("failure", "error", "skipped") for c in tc):
             passed.add(f"{tc.get('classname')}::{tc.get('name')}")
     xml.unlink()
+    shutil.rmtree(td, ignore_errors=True)
     return passed
 
 
@@ -56,6 +58,7 @@ def main():
     ap.add_argument("prop")
     ap.add_argument("--needs", default="")
     ap.add_argument("--source", default="sub-agent given only the property text and a scratch worktree")
+    ap.add_argument("--no-detect", action="store_true", help="confirm only; leave detected_by for a later --detect-only run")
     ap.add_argument("--detect-only", action="store_true", help="reuse the confirmation recorded in seeded/<id>/meta.json; only re-run the checks")
     a = ap.parse_args()
     src = Path(a.src)
@@ -121,7 +124,7 @@ def main():
         shutil.rmtree(wt, ignore_errors=True)
     # run the checks against the patched /repo
     det = {}
-    if meta["status"] == "confirmed":
+    if meta["status"] == "confirmed" and not a.no_detect:
         if sh("git -C /repo status --porcelain")[1].strip():
             print("/repo not clean; skipping detection run")
         else:
